@@ -69,7 +69,7 @@ def library_panic(stderr):
             break
         if line.startswith("\t") or line.startswith(" "):
             continue
-        fn = line.split("(")[0] if not line.startswith("panic(") else "panic"
+        fn = line.rsplit("(", 1)[0] if not line.startswith("panic(") else "panic"
         if fn == "panic" or fn.startswith("runtime.") or fn.startswith("runtime/") or fn.startswith("reflect.") \
                 or fn.startswith("encoding/") and "uhppote-core" not in fn or fn.startswith("fmt.") or fn.startswith("strconv.") \
                 or fn.startswith("time.") or fn.startswith("bytes.") or fn.startswith("strings.") or fn.startswith("net.") or fn.startswith("sync."):
